@@ -185,7 +185,16 @@ fn gen_hist(rng: &mut Sm, kind: i64, maxlen: usize) -> Tree {
                     tl![A(13)]
                 }
             }
-            83..=90 => tl![A(10), a(rng.range(0, 8))],
+            83..=90 => {
+                if !capped && rng.chance(1, 2) {
+                    // maxima beyond i64::MAX are legitimate usize values
+                    tl![A(10), a(*rng.pick(&[i64::MAX as i128, i64::MAX as i128 + 1, usize::MAX as i128 - 1, usize::MAX as i128]))]
+                } else if capped {
+                    tl![A(10), a(rng.range(0, 8))]
+                } else {
+                    tl![A(14)]
+                }
+            }
             91..=93 => tl![A(11)],
             94..=95 => tl![A(12)],
             96..=97 => tl![A(13)],
